@@ -103,12 +103,14 @@ def compute_inexact_flow_decomp_safe_paths(
     def lower(u, v):
         value = G.edges[u, v][lowerbound_attr]
         value = value.item() if hasattr(value, "item") else value
-        return value if isinstance(value, int) else Fraction(value)
+        # (np.longdouble has no Python counterpart, .item() returns it unchanged and Fraction() does not take it: the exact ratio is read from the value)
+        return value if isinstance(value, int) else Fraction(*value.as_integer_ratio()) if hasattr(value, "as_integer_ratio") else Fraction(value)
 
     def upper(u, v):
         value = G.edges[u, v][upperbound_attr]
         value = value.item() if hasattr(value, "item") else value
-        return value if isinstance(value, int) else Fraction(value)
+        # (np.longdouble has no Python counterpart, .item() returns it unchanged and Fraction() does not take it: the exact ratio is read from the value)
+        return value if isinstance(value, int) else Fraction(*value.as_integer_ratio()) if hasattr(value, "as_integer_ratio") else Fraction(value)
 
     # Float values meant as decimal numbers (0.1 + 0.2 = 0.3) are each off by up to half a unit in the last place; an excess is a sum
     # of edge values with coefficients +-1, so an excess within |E| units in the last place of the largest value counts as 0.
